@@ -476,7 +476,10 @@ def write_evidence(ctx, coverage, violations, assumptions=None):
         "wall_s": round(time.time() - ctx.t0, 2),
         "violations": violations,
     }
-    path = os.path.join(EVID, "%s.json" % ctx.pid)
+    # evidence/ describes /repo itself: a run against a scratch worktree (VERIF_REPO) writes elsewhere
+    evdir = EVID if os.path.realpath(os.environ.get("VERIF_REPO", "/repo")) == os.path.realpath("/repo") else os.path.join(RUN, "evidence_scratch")
+    os.makedirs(evdir, exist_ok=True)
+    path = os.path.join(evdir, "%s.json" % ctx.pid)
     tmp = path + ".tmp"
     with open(tmp, "w") as f:
         json.dump(ev, f, indent=1, sort_keys=True)
